@@ -818,6 +818,80 @@ theorem c05_psifunc_fixed {ε : Type} (p : ε → Bool) (evs : List ε) (inc : O
     selectByMask evs [evs.map p] = maskMethod 1 (fun _ => p) evs inc := by
   simp [maskMethod, critMask]
 
+/-! ### histories of calls on one manager -/
+
+/-- **History independence**: with the reset of `_src_evt_idxs` at the top of `initialize_trial`, the
+state of a manager after a call is a function of that call's arguments only — whatever the object
+held before (earlier trials with other events, sources, selections, index fields) — namely the
+stateless `initTrial` all `c05_tdm_*` theorems are about. -/
+theorem c05_tdm_history_independent {ε : Type} (self : TdmObj ε) (K : Nat) (evs : List ε)
+    (sel : Option (Method ε)) (argsort : Option (List ε → List Nat)) :
+    initTrialObj true self K evs sel argsort =
+      (initTrial K evs sel argsort).map (fun t => { events := t.events, srcEvtIdxs := some t.pairs }) := by
+  unfold initTrialObj initTrial
+  cases sel with
+  | none =>
+    cases argsort with
+    | none => simp
+    | some f =>
+      dsimp only
+      cases take evs (f evs) <;> simp
+  | some m =>
+    simp only
+    cases m evs none with
+    | none => simp
+    | some r =>
+      cases argsort with
+      | none => simp
+      | some f =>
+        simp only
+        cases take r.events (f r.events) with
+        | none => simp
+        | some sorted =>
+          simp only
+          cases reindex (f r.events) r.pairs <;> simp
+
+/-- after any history on one manager, if the last call succeeds the object is exactly what a fresh
+manager holds after that call alone -/
+theorem c05_tdm_last_call_only {ε : Type} (self : TdmObj ε) (cs : List (TdmCall ε)) (c : TdmCall ε)
+    (t : Tdm ε) (hc : initTrial c.K c.evs c.sel c.argsort = some t) :
+    runCalls true self (cs ++ [c]) = { events := t.events, srcEvtIdxs := some t.pairs } ∧
+    runCalls true TdmObj.fresh [c] = { events := t.events, srcEvtIdxs := some t.pairs } := by
+  have one : ∀ s : TdmObj ε, runCalls true s [c] = { events := t.events, srcEvtIdxs := some t.pairs } := by
+    intro s
+    simp only [runCalls, c05_tdm_history_independent, hc, Option.map_some]
+  refine ⟨?_, one _⟩
+  induction cs generalizing self with
+  | nil => exact one self
+  | cons d ds ih =>
+    simp only [List.cons_append, runCalls]
+    cases initTrialObj true self d.K d.evs d.sel d.argsort with
+    | none => exact ih self
+    | some s => exact ih s
+
+/-- the reset is present in the current source, so history independence holds for the code as it is -/
+theorem c05_tdm_history_independent_for_current_source {ε : Type} (self : TdmObj ε) (K : Nat)
+    (evs : List ε) (sel : Option (Method ε)) (argsort : Option (List ε → List Nat)) :
+    initTrialObj Gen.C05.resetsTable self K evs sel argsort =
+      (initTrial K evs sel argsort).map (fun t => { events := t.events, srcEvtIdxs := some t.pairs }) := by
+  have h : Gen.C05.resetsTable = true := by decide
+  rw [h]
+  exact c05_tdm_history_independent self K evs sel argsort
+
+/-- what `initialize_trial` without the reset would have to satisfy -/
+def c05_tdm_no_reset_statement : Prop :=
+  ∀ (self : TdmObj Nat) (K : Nat) (evs : List Nat),
+    (initTrialObj false self K evs none none).map (·.srcEvtIdxs) =
+      (initTrialObj false TdmObj.fresh K evs none none).map (·.srcEvtIdxs)
+
+/-- without the reset a trial without event selection inherits the previous trial's table: after a
+trial that left the pair `(0, 5)`, a one-event trial stores `(0, 5)` (out of range) instead of `(0, 0)` -/
+theorem c05_tdm_no_reset_counterexample : ¬ c05_tdm_no_reset_statement := by
+  intro h
+  have := h { events := [1, 2, 3, 4, 5, 6], srcEvtIdxs := some [(0, 5)] } 1 [7]
+  revert this
+  decide
+
 /-! ### the code before the fixes violated the property -/
 
 /-- what the re-indexing `np.take(sorted_idxs, evt_idxs)` (before the fix) would have to satisfy -/
